@@ -1110,6 +1110,33 @@ impl Scenario for ZipCryptoSc {
                 e.dos = (0x2821, ((c.check as u16) << 8) | 0x15);
             }
             e.enc = Some(Enc::ZipCrypto { pw: c.pw.clone(), infozip: c.infozip });
+            // what real producers put next to such entries: Info-ZIP's extended timestamp (UT, with a UTC time
+            // that is NOT the DOS local time the check byte was taken from), Unix uid/gid (ux), NTFS times -
+            // none of them may influence which password is accepted
+            {
+                let mut rx = Rng::new(case_hash ^ 0x5455);
+                if rx.chance(1, 2) {
+                    let t = 1_000_000_000u32 + rx.below(700_000_000) as u32;
+                    let mut ut_c = vec![0x55, 0x54, 5, 0, 0x03];
+                    ut_c.extend_from_slice(&t.to_le_bytes());
+                    let mut ut_l = vec![0x55, 0x54, 9, 0, 0x03];
+                    ut_l.extend_from_slice(&t.to_le_bytes());
+                    ut_l.extend_from_slice(&(t + 7).to_le_bytes());
+                    e.extra_central.0.extend_from_slice(&ut_c);
+                    e.extra_local.0.extend_from_slice(&ut_l);
+                    ctx.probe("foreign_entry_with_extended_timestamp");
+                }
+                if rx.chance(1, 3) {
+                    let ux = [0x75u8, 0x78, 11, 0, 1, 4, 0xe8, 3, 0, 0, 4, 0xe8, 3, 0, 0];
+                    e.extra_central.0.extend_from_slice(&ux);
+                    e.extra_local.0.extend_from_slice(&ux);
+                }
+                if rx.chance(1, 4) {
+                    let mut nt = vec![0x0a, 0x00, 32, 0, 0, 0, 0, 0, 1, 0, 24, 0];
+                    nt.extend_from_slice(&rx.bytes(24));
+                    e.extra_central.0.extend_from_slice(&nt);
+                }
+            }
             l.entries.push(e);
             if c.neighbours > 1 {
                 l.entries.push(BEntry { name: Hex(b"after".to_vec()), content: Content::Lit(Hex(nb_plain.clone())), ..Default::default() });
